@@ -15,15 +15,14 @@ use std::hash::{Hash, Hasher};
 // ------------------------------------------------------------------------------------------
 // Key usage (C02 value, C04 canonical form)
 
-/// All 512 subsets: the key-usage list is built from a symbolic 9-bit mask; the extension value
-/// must decode to exactly that set (C02) and be the canonical named-bit list (C04).
+/// One key-usage subset (`mask` is a constant of the query: after the extension value got its
+/// minimal length, a symbolic subset makes the BIT STRING's length symbolic, which CBMC cannot
+/// carry through the enclosing OCTET STRING / SEQUENCE fix-ups). The list handed to rcgen has
+/// the subset's purposes in table order padded with repeats of its first purpose, then the subset
+/// again in reverse order; the symbolic part (purpose -> bit) is the `ku_to_u16` query.
 /// `check`: 1 = C02 (value), 2 = C04 (canonical DER), 3 = both.
-pub fn ku_bits(check: u8) {
-    let mask: u16 = kani::any();
-    kani::assume(mask != 0 && mask & 0x007f == 0);
+pub fn ku_bits(mask: u16, check: u8) {
     let all = KU_CLASSES[5];
-    // a list of constant length 9 that denotes exactly the subset `mask`: position i holds purpose i
-    // when bit i is set and otherwise repeats the first purpose of the subset (duplicates are legal)
     let mut first = 0;
     let mut i = 9;
     while i > 0 {
@@ -32,11 +31,19 @@ pub fn ku_bits(check: u8) {
             first = i;
         }
     }
-    let mut kus = Vec::with_capacity(9);
+    let mut kus = Vec::with_capacity(18);
     let mut i = 0;
     while i < 9 {
         kus.push(if mask & (0x8000 >> i) != 0 { all[i] } else { all[first] });
         i += 1;
+    }
+    // ... then the subset once more in reverse order (order and duplicates must not matter)
+    let mut i = 9;
+    while i > 0 {
+        i -= 1;
+        if mask & (0x8000 >> i) != 0 {
+            kus.push(all[i]);
+        }
     }
     let mut p = empty_params();
     p.key_usages = kus;
@@ -60,34 +67,12 @@ pub fn ku_bits(check: u8) {
     kani::cover!(true, "REACH");
 }
 
-/// Up to three arbitrary purposes in any order, duplicates included.
-pub fn ku_sequence(n: usize, check: u8) {
+/// Bit position of every purpose (symbolic purpose): bit i of the KeyUsage BIT STRING, RFC 5280 4.2.1.3.
+pub fn ku_to_u16() {
+    let k: usize = kani::any();
+    kani::assume(k < 9);
     let all = KU_CLASSES[5];
-    let mut kus = Vec::with_capacity(3);
-    let mut mask = 0u16;
-    let mut i = 0;
-    while i < n {
-        let k: usize = kani::any();
-        kani::assume(k < 9);
-        kus.push(all[k]);
-        mask |= 0x8000 >> k;
-        i += 1;
-    }
-    let mut p = empty_params();
-    p.key_usages = kus;
-    let der = yasna::construct_der(|w| hk::write_key_usage(&p, w));
-    let ext = read_whole(&der).unwrap();
-    let mut c = Cur::of(&ext);
-    let _oid = c.expect(&der, OID).unwrap();
-    let _crit = c.next_if(&der, BOOL);
-    let val = c.expect(&der, OCTSTR).unwrap();
-    let bits = read_tlv(&der, val.start, val.end).unwrap();
-    if check & 1 != 0 {
-        assert!(named_bits16(&der, &bits) == Some(mask), "C02:ku-value");
-    }
-    if check & 2 != 0 {
-        assert!(strict_named_bits(&der, &bits), "C04:key-usage-trailing-zero-bits");
-    }
+    assert!(hk::key_usage_to_u16(&all[k]) == 0x8000u16 >> k, "C02:ku-bit-position");
     kani::cover!(true, "REACH");
 }
 
